@@ -360,6 +360,9 @@ pub struct HistCase {
     pub points: Vec<Vec<i64>>,
     /// sort keys defining a permutation of the observations
     pub perm_keys: Vec<u16>,
+    /// how the edge collections are handed over: 0 = Vec, 1..3 = owned Array1 sliced / inverted in place
+    #[serde(default)]
+    pub edges_mode: u8,
 }
 
 type Model = BTreeMap<Vec<usize>, usize>;
@@ -389,7 +392,21 @@ pub fn check_hist_t<T: HEl>(c: &HistCase) -> CheckResult {
         return Ok(Info::discarded());
     }
     let sorted: Vec<Vec<T>> = c.axes.iter().map(|a| a.iter().map(|&v| T::from_i(v)).collect::<BTreeSet<T>>().into_iter().collect()).collect();
-    let mk_grid = || Grid::from(c.axes.iter().map(|a| Bins::new(Edges::from(a.iter().map(|&v| T::from_i(v)).collect::<Vec<T>>()))).collect::<Vec<_>>());
+    let mk_grid = || {
+        Grid::from(
+            c.axes
+                .iter()
+                .map(|a| {
+                    let vals: Vec<T> = a.iter().map(|&v| T::from_i(v)).collect();
+                    if c.edges_mode % 4 == 0 {
+                        Bins::new(Edges::from(vals))
+                    } else {
+                        Bins::new(Edges::from(owned_array1(&vals, c.edges_mode)))
+                    }
+                })
+                .collect::<Vec<_>>(),
+        )
+    };
     let shape: Vec<usize> = sorted.iter().map(|s| s.len().saturating_sub(1)).collect();
     let mut h = Histogram::new(mk_grid());
     ensure!(h.ndim() == nd, "wrong-value", "Histogram::ndim = {} for a grid of {} axes", h.ndim(), nd);
@@ -463,7 +480,8 @@ pub fn check_hist_t<T: HEl>(c: &HistCase) -> CheckResult {
         .class_if(on_edge > 0, "has-on-edge-observation")
         .class_if(nd == 1, "1-axis")
         .class_if(nd == 2, "2-axes")
-        .class_if(nd == 3, "3-axes"))
+        .class_if(nd == 3, "3-axes")
+        .class_if(c.edges_mode % 4 != 0, "edges-from-array1-sliced-in-place"))
 }
 
 pub fn check_hist(c: &HistCase) -> CheckResult {
@@ -495,9 +513,9 @@ fn hist_strategy(max_ops: usize) -> impl Strategy<Value = HistCase> {
                     }
                 })
                 .collect();
-            (Just((ty, axes)), proptest::collection::vec(coords, 0..max_ops), proptest::collection::vec(any::<u16>(), max_ops)).prop_map(move |((ty, axes), points, perm_keys)| {
+            (Just((ty, axes)), proptest::collection::vec(coords, 0..max_ops), proptest::collection::vec(any::<u16>(), max_ops), prop_oneof![3 => Just(0u8), 1 => 1u8..4]).prop_map(move |((ty, axes), points, perm_keys, edges_mode)| {
                 let _ = nd;
-                HistCase { ty, axes, points, perm_keys }
+                HistCase { ty, axes, points, perm_keys, edges_mode }
             })
         })
 }
